@@ -73,12 +73,15 @@ int main(int argc, char **argv)
     vf_rule = "odometer over boundary-value alphabets; one engine case = a block (outer digits) with the inner digits looped inside, evaluations count inputs; "
               "non-trivial = the exact result needs rounding, a division by w != 1, an overflow verdict, a singular/ill-conditioned matrix or a predicate "
               "answering TRUE; outcome = hash of (return value, result)";
-    vf_bounds = th ? "transform_point/point_3d: 9 variables (row0,row2,v; row1 = rotated row0) over A11 (11^9) plus A7 extremes, A7 rounding, the 9 values A11 lacks (9^9) and a "
-                     "w sweep (37x37 w = c*d); 48.16 entry points 5^3x5^3x11^3; multiply 21^6; scale/rotate/translate 21^2 parameters x 3 NULL patterns x 3125 matrices; "
-                     "bounds 2500 affine + 1875 projective matrices x 400 boxes; invert 6^9 + 7^6x4; is_* 7^9; conversions and f_transform family over A-derived doubles"
-                   : "transform_point/point_3d: 9 variables over A7 extremes (7^9), A7 rounding (7^9) and a w sweep (37x37 w = c*d x 7^5); 48.16 entry points 3^3x5^3x11^3; "
-                     "multiply 21^6; scale/rotate/translate 21^2 parameters x 3 NULL patterns x 243 matrices; bounds 2500+1875 matrices x 100 boxes; invert 5^9 + 7^6x4; "
-                     "is_* 6^9; conversions and f_transform family over A-derived doubles";
+    vf_bounds = th ? "transform_point/point_3d: 9 variables (row0,row2,v; row1 = rotated row0) over A11 (11^9 = 2.36e9), the 9 values A11 lacks (9^9), A7 extremes (7^9), A7 rounding (7^9) "
+                     "and a w sweep (w = c*d, c,d over 37 magnitudes, x 7^5); 48.16 entry points 5^3 x 5^3 x 11^3; multiply 21^6; scale/rotate/translate: 21^2 parameters x "
+                     "3 NULL patterns x 3125 matrix pairs; bounds: 62500 matrices (5^6 x 4 last rows) x 400 boxes; invert 6^9 + 7^6 x 4 last rows; "
+                     "is_identity/is_scale/is_int_translate 8^9; is_inverse 1024^2; double->fixed 9 x 74^2; f_transform family 1024 matrices x (1024 partners + 343 vectors + "
+                     "9 x 21^2 parameters + 100 boxes); f_invert 6^9"
+                   : "transform_point/point_3d: 9 variables (row0,row2,v; row1 = rotated row0) over A7 extremes (7^9 = 4.0e7), A7 rounding (7^9) and a w sweep (w = c*d, c,d over 37 "
+                     "magnitudes, x 7^5); 48.16 entry points 3^3 x 5^3 x 11^3; multiply 21^6 = 8.6e7; scale/rotate/translate: 21^2 parameters x 3 NULL patterns x 243 matrix pairs; "
+                     "bounds: 62500 matrices (5^6 x 4 last rows) x 100 boxes; invert 5^9 + 7^6 x 4 last rows; is_identity/is_scale/is_int_translate 6^9; is_inverse 243^2; "
+                     "double->fixed 9 x 74^2; f_transform family 243 matrices x (243 partners + 343 vectors + 9 x 21 x 11 parameters + 100 boxes); f_invert 5^9";
     vf_assume("the reference is exact integer arithmetic in __int128 written from the statement (round to nearest, either neighbour on a tie, one unit outside |w|<65536)");
     vf_assume("an assertion failure inside a call is observed by interposing __assert_fail (and SIGABRT) and longjmp-ing out of the library; the library keeps no state across calls in pixman-matrix.c");
     vf_assume("multiply-like results may round every term separately: |result - exact| <= 1/2 unit per term that is not already a multiple of 2^-16 (DESIGN C11)");
